@@ -161,7 +161,13 @@ def flatComp (N : Nat) (L : Doc) (P : Name) (c : Comp) : Comp :=
 
 def bpg0 (L : Doc) (P : Name) : Dict := update (layerOf L.bps 0).glob (layerOf L.bps P).glob
 def bpg (N : Nat) (L : Doc) (P : Name) : Dict := mapVals (interp N (gvars N L P)) (bpg0 L P)
-def bps0 (L : Doc) (P : Name) (s : Nat) : Dict := update ((layerOf L.bps 0).stage s) ((layerOf L.bps P).stage s)
+/-- the default blueprint of stage `s`, with the global blueprint of the selected platform repeated on top of it when
+the stage blueprint is not empty and the platform is not `default` (flowir.py, fix 1b655bb: the stored description has
+only two blueprint layers, and the platform-global blueprint outranks the default-stage one) -/
+def bpsBase (L : Doc) (P : Name) (s : Nat) : Dict :=
+  let d := (layerOf L.bps 0).stage s
+  if d.isEmpty || P == 0 then d else update d (layerOf L.bps P).glob
+def bps0 (L : Doc) (P : Name) (s : Nat) : Dict := update (bpsBase L P s) ((layerOf L.bps P).stage s)
 def bpsCtx (N : Nat) (L : Doc) (P : Name) (s : Nat) : Dict := update (gvars N L P) (svars N L P s)
 def bpsv (N : Nat) (L : Doc) (P : Name) (s : Nat) : Dict := mapVals (interp N (bpsCtx N L P s)) (bps0 L P s)
 
@@ -420,16 +426,15 @@ blueprints of every platform); an experiment loaded from the instance directory 
 (`flatten`: blueprints of the default and the selected platform folded into `default`, interpolated in the global /
 stage scope).  Both instantiate the next iteration the same way (`addIteration`) and store `flatComp` of the new
 components.  The stored description is equivalent to the package for NEW components only as far as the folded
-blueprints are: `bpClosed` and `bpOrderFree` are the (decidable) conditions under which they are. -/
+blueprints are: `bpClosed` is the (decidable) condition under which they are. -/
 
 /-- the blueprint values that a component of stage `s` inherits mention no variable that is defined in the scope in
 which `instance()` interpolates them (literal settings: environment names, resource requests, …) -/
 def bpClosed (N : Nat) (L : Doc) (P : Name) (s : Nat) : Bool :=
   dictClosed (gvars N L P) (bpg0 L P) && dictClosed (bpsCtx N L P s) (bps0 L P s)
 
-/-- no option path is set BOTH by the default blueprint of stage `s` and by the global blueprint of the selected
-platform `P ≠ default`: the running experiment layers default-global < default-stage < platform-global <
-platform-stage (`layeredOpts`), the stored description (default+platform global) < (default+platform stage) -/
+/-- (what the OLD folding additionally needed, `Witness.C07`) no option path is set BOTH by the default blueprint of
+stage `s` and by the global blueprint of the selected platform `P ≠ default` -/
 def bpOrderFree (L : Doc) (P : Name) (s : Nat) : Bool :=
   P == 0 || ((layerOf L.bps 0).stage s).all (fun e => !hasKey (layerOf L.bps P).glob e.1)
 
@@ -445,7 +450,20 @@ def sameComp (a b : Comp) : Bool :=
 /-- the hypotheses of `C07.iteration_after_reload_like_control` for a list of new components -/
 def newCompsOk (N : Nat) (L : Doc) (P : Name) (cs : List Comp) : Bool :=
   cs.all fun c => !c.isDoc && (L.comps.map (·.stage)).contains c.stage && bpClosed N L P c.stage
-    && bpOrderFree L P c.stage
+
+/-! ### the folding of the stage blueprints before fix 1b655bb (`…Old`, used by `Witness.C07` only) -/
+
+def bps0Old (L : Doc) (P : Name) (s : Nat) : Dict := update ((layerOf L.bps 0).stage s) ((layerOf L.bps P).stage s)
+def bpsvOld (N : Nat) (L : Doc) (P : Name) (s : Nat) : Dict := mapVals (interp N (bpsCtx N L P s)) (bps0Old L P s)
+
+/-- `instance()` before the fix: (default+platform global) < (default+platform stage) -/
+def flattenOld (N : Nat) (L : Doc) (P : Name) : Doc :=
+  let ss := L.comps.map (·.stage)
+  { vars := [(0, ⟨gvars N L P, ss.map fun s => (s, svars N L P s)⟩)]
+    bps := [(0, ⟨bpg N L P, ss.map fun s => (s, bpsvOld N L P s)⟩)]
+    comps := L.comps.map (flatComp N L P) }
+
+def reloadOld (N : Nat) (E : Exp) : Exp := { doc := flattenOld N E.doc E.plat, plat := E.plat, patches := [] }
 
 /-- NOT the code that exists: a store that leaves the blueprints out of the stored description ("the components
 already have them folded in") — modelled for `Witness.C07` -/
